@@ -887,20 +887,33 @@ func c15Safe(info *types.Info, a Atom, errObj, resObj types.Object) bool {
 func rangeSliceErrGuard(info *types.Info, pm map[ast.Node]ast.Node, as ast.Node, stop ast.Node) string {
 	bad := ""
 	for _, a := range lexicalGuards(pm, as, stop) {
-		ast.Inspect(a.E, func(m ast.Node) bool {
-			call, ok := m.(*ast.CallExpr)
-			if !ok {
-				return true
+		// the only conditions that may decide whether a slice error is recorded: "this slice
+		// failed" (result.err != nil) and errors.Is(err, context.Canceled); a flag, a helper or
+		// any other test can hide a failed slice
+		if x, _, ok := nilAtom(info, a); ok {
+			if sel, isSel := ast.Unparen(x).(*ast.SelectorExpr); isSel && sel.Sel.Name == "err" {
+				continue
 			}
-			fn := Callee(info, call)
-			if fn != nil && fn.Pkg() != nil && fn.Pkg().Path() == "errors" && fn.Name() == "Is" && len(call.Args) == 2 {
+		}
+		e := ast.Unparen(a.E)
+		for {
+			u, ok := e.(*ast.UnaryExpr)
+			if !ok || u.Op != token.NOT {
+				break
+			}
+			e = ast.Unparen(u.X)
+		}
+		okAtom := false
+		if call, ok := e.(*ast.CallExpr); ok && len(call.Args) == 2 {
+			if fn := Callee(info, call); fn != nil && fn.Pkg() != nil && fn.Pkg().Path() == "errors" && fn.Name() == "Is" {
 				if o := objOf(info, call.Args[1]); o != nil && o.Pkg() != nil && o.Pkg().Path() == "context" && o.Name() == "Canceled" {
-					return false
+					okAtom = true
 				}
 			}
-			bad = exprStr(call)
-			return false
-		})
+		}
+		if !okAtom {
+			bad = roleStr(info, a.E)
+		}
 	}
 	return bad
 }
